@@ -83,7 +83,8 @@ double gcirc(double ra1, double dec1,
 {
 
     double sindec1, cosdec1, sindec2, cosdec2, 
-           radiff, cosradiff, dis, cosdis; 
+           radiff, sinradiff, sinhalfradiff, cosradiff, dis, cosdis,
+           a, b, sindis; 
 
     if (ra1 == ra2 && dec1 == dec2) {
         return 0.0;
@@ -96,14 +97,21 @@ double gcirc(double ra1, double dec1,
     cosdec2 = cos(dec2*D2R);
 
     radiff = (ra1-ra2)*D2R;
+    sinradiff = sin(radiff);
     cosradiff = cos(radiff);
 
     cosdis = sindec1*sindec2 + cosdec1*cosdec2*cosradiff;
 
-    if (cosdis < -1.0) cosdis=-1.0;
-    if (cosdis >  1.0) cosdis= 1.0;
+    // length of the cross product of the two unit vectors; acos(cosdis)
+    // alone loses all accuracy for separations below about an arcsecond
+    // and near 180 degrees.  b is cosdec1*sindec2 - sindec1*cosdec2*cosradiff
+    // written without cancellation
+    sinhalfradiff = sin(0.5*radiff);
+    a = cosdec2*sinradiff;
+    b = sin((dec2-dec1)*D2R) + 2.0*sindec1*cosdec2*sinhalfradiff*sinhalfradiff;
+    sindis = sqrt(a*a + b*b);
 
-    dis = acos(cosdis);
+    dis = atan2(sindis, cosdis);
     if (degrees) {
         dis *= R2D;
     }
